@@ -135,6 +135,8 @@ class TlcResult:
 def run_tlc(subdir, module, cfg, tag, workers=8, timeout=900, env=None, simulate=None,
             coverage=False, dfs=False, heap=None, seed=None):
     """Run TLC on specs/<subdir>/<module>.tla with the given cfg text."""
+    # the per-call timeouts were sized on an idle 16-core machine; leave headroom for a loaded one
+    timeout = int(timeout * float(os.environ.get("VERIF_TIMEOUT_SCALE", "2.5")))
     d = workdir(tag)
     cfgp = os.path.join(d, f"{module}_{tag}.cfg")
     with open(cfgp, "w") as f:
